@@ -41,6 +41,8 @@ declarations:
 - decl: bool f18(bool flag)
 - decl: int f14(int a, const std::string & s)
 - decl: int f19(double x, int a, int off = 0, int stride = 1)
+- decl: int f25(const std::string & s)
+- decl: int f25(bool b)
 - decl: long long f23(long long a)
 - decl: long f24(long a, size_t n)
 - decl: class Cls
@@ -70,6 +72,8 @@ int f14(int a, const std::string &s);
 int f17(double x, int a = 7, bool b = true);
 bool f18(bool flag);
 int f19(double x, int a, int off = 0, int stride = 1);
+int f25(const std::string &s);
+int f25(bool b);
 long long f23(long long a);
 long f24(long a, size_t n);
 class Cls { public: int value; explicit Cls(int v); ~Cls(); int add(int a); int add(const std::string &s); int get() const; void set(int v); int scale(int k = 2); int mix(int a, double b); };
@@ -92,6 +96,8 @@ int f14(int a, const std::string &s) { IN("f14(int,const std::string&)"); vt_int
 int f17(double x, int a, bool b) { IN("f17(double,int,bool)"); vt_dbl(x); vt_int(a); vt_bool(b); vt_end(); int rv = (int)(x * 4) + a * 100 + (b ? 1 : 0); OUT("f17(double,int,bool)"); vt_int(rv); vt_end(); return rv; }
 bool f18(bool flag) { IN("f18(bool)"); vt_bool(flag); vt_end(); bool rv = !flag; OUT("f18(bool)"); vt_bool(rv); vt_end(); return rv; }
 int f19(double x, int a, int off, int stride) { IN("f19(double,int,int,int)"); vt_dbl(x); vt_int(a); vt_int(off); vt_int(stride); vt_end(); int rv = (int)(x * 4) + a * 10 + off * 100 + stride * 1000; OUT("f19(double,int,int,int)"); vt_int(rv); vt_end(); return rv; }
+int f25(const std::string &s) { IN("f25(const std::string&)"); vt_str(s.c_str(), (long)s.size()); vt_end(); int rv = 500 + (int)s.size(); OUT("f25(const std::string&)"); vt_int(rv); vt_end(); return rv; }
+int f25(bool b) { IN("f25(bool)"); vt_bool(b); vt_end(); int rv = b ? 601 : 600; OUT("f25(bool)"); vt_int(rv); vt_end(); return rv; }
 long long f23(long long a) { IN("f23(long long)"); vt_int((long)a); vt_end(); long long rv = a * 2 + 1; OUT("f23(long long)"); vt_int((long)rv); vt_end(); return rv; }
 long f24(long a, size_t n) { IN("f24(long,size_t)"); vt_int(a); vt_int((long)n); vt_end(); long rv = a + (long)n; OUT("f24(long,size_t)"); vt_int(rv); vt_end(); return rv; }
 Cls::Cls(int v) : value(v) { IN("Cls::Cls(int)"); vt_int(v); vt_end(); OUT("Cls::Cls(int)"); vt_obj(this); vt_end(); }
@@ -206,6 +212,7 @@ FUNCS = [
     ("f17", "module", 0, [("f17(double,int,bool)", ["dbl", "int", "bool"], "int", 2)]),
     ("f18", "module", 0, [("f18(bool)", ["bool"], "bool", 0)]),
     ("f19", "module", 0, [("f19(double,int,int,int)", ["dbl", "int", "int", "int"], "int", 2)]),
+    ("f25", "module", 0, [("f25(const std::string&)", ["str"], "int", 0), ("f25(bool)", ["bool"], "int", 0)]),
     ("f23", "module", 0, [("f23(long long)", ["int"], "int", 0)]),
     ("f24", "module", 0, [("f24(long,size_t)", ["int", "int"], "int", 0)]),
     ("Cls", "module", 0, [("Cls::Cls(int)", ["int"], "obj", 0)]),
